@@ -17,6 +17,8 @@
                          state of the label active AFTER the step's hop attempt and both moments vanish; otherwise ρ' = expStep ρ  (C11, C02)
 
   * `shiftDiag_hermitian`, `afStep_hermitian`, `afRun_hermitian`, `initial_moments_hermitian`   both moment tensors and ρ stay Hermitian
+  * `afRun_append`, `afEnd_snoc`   an A-FSSH run splits at any step into the first part and the run continued from the state AND
+                                   the electronics of the last two positions (what `simulate()` has to carry over: fix c6fce94)
                          along a whole A-FSSH run with hops (`hop_update`) and collapses, for any eigh results, dt, thresholds   (C11)
 
   * `shRun_append`, `shEnd_last`   a run over `a ++ b` = run over `a`, then run over `b` from the state and electronics the first part ended
@@ -453,5 +455,33 @@ theorem afRun_rho_valid (m : Fin n → ℝ) (dt : ℝ) (ePrev eLast : ElecA ℝ 
     rcases hr with hr | hr
     · subst hr; exact hstep
     · exact ih eLast inp.elec _ (fun i hi => hC i (List.mem_cons_of_mem _ hi)) hstep r hr
+
+/-- what an A-FSSH run leaves behind for the next step: the electronics of the last TWO positions and the trajectory state
+    (`advance_position` of A-FSSH propagates the position moments with the midpoint Hamiltonian of those two) -/
+noncomputable def afEnd (m : Fin n → ℝ) (dt : ℝ) :
+    ElecA ℝ N n → ElecA ℝ N n → AF ℝ N n → List (AStepIn ℝ N n) → ElecA ℝ N n × ElecA ℝ N n × AF ℝ N n
+  | ePrev, eLast, a, [] => (ePrev, eLast, a)
+  | ePrev, eLast, a, inp :: rest => afEnd m dt eLast inp.elec (afStep m dt ePrev eLast inp a).1 rest
+
+/-- **splitting an A-FSSH run** (C12/C13): the steps after an interruption are those of the uninterrupted run exactly when the
+    continuation starts from the state AND the electronics of the last two positions. `TrajectorySH.simulate()` used to begin
+    every call with `last_electronics = None` - i.e. with `ePrev := eLast` - which is a different run (repaired: `c6fce94`). -/
+theorem afRun_append (m : Fin n → ℝ) (dt : ℝ) (ePrev eLast : ElecA ℝ N n) (a : AF ℝ N n) (xs ys : List (AStepIn ℝ N n)) :
+    afRun m dt ePrev eLast a (xs ++ ys)
+      = afRun m dt ePrev eLast a xs
+        ++ afRun m dt (afEnd m dt ePrev eLast a xs).1 (afEnd m dt ePrev eLast a xs).2.1 (afEnd m dt ePrev eLast a xs).2.2 ys := by
+  induction xs generalizing ePrev eLast a with
+  | nil => simp [afRun, afEnd]
+  | cons inp rest ih => simp [afRun, afEnd, ih]
+
+/-- the carried pair after at least one step: the previous step's electronics and the last step's -/
+theorem afEnd_snoc (m : Fin n → ℝ) (dt : ℝ) (ePrev eLast : ElecA ℝ N n) (a : AF ℝ N n) (xs : List (AStepIn ℝ N n))
+    (inp : AStepIn ℝ N n) :
+    (afEnd m dt ePrev eLast a (xs ++ [inp])).1 = (afEnd m dt ePrev eLast a xs).2.1 ∧
+    (afEnd m dt ePrev eLast a (xs ++ [inp])).2.1 = inp.elec := by
+  induction xs generalizing ePrev eLast a with
+  | nil => simp [afEnd]
+  | cons i r ih => simpa [afEnd] using ih eLast i.elec (afStep m dt ePrev eLast i a).1
+
 
 end Mud.StepThm
